@@ -372,11 +372,11 @@ Proof.
   apply sim_ret; [assumption|]. apply F2_app; assumption.
 Qed.
 
-Lemma sim_array_write s o arr varr eb idx vidx value vvalue m : RS s o -> Rws s arr varr -> Rws s idx vidx ->
+Lemma sim_array_write s o arr varr eb size idx vidx value vvalue m : RS s o -> Rws s arr varr -> Rws s idx vidx ->
   Rws s value vvalue ->
-  sim s o (array_write bops arr eb idx value m) (array_write tops varr eb vidx vvalue m) (fun s' r v => Rws s' r v).
+  sim s o (array_write bops arr eb size idx value m) (array_write tops varr eb size vidx vvalue m) (fun s' r v => Rws s' r v).
 Proof.
-  intros HS Ha Hi Hv. unfold array_write. destruct (eb =? 0)%nat; [apply sim_crash|].
+  intros HS Ha Hi Hv. unfold array_write.
   rewrite (Rws_length _ _ _ _ Ha).
   sbind sim_m_extend.
   eapply sim_bind; [eapply sim_mapM_M; eauto; intros; unf; eapply sim_not; eauto|snext].
